@@ -45,7 +45,7 @@ def cases(seed, tier):
         out.append({"exp": ["space", "time", "space", "time_rc"][k % 4], "gid": k, "r": r, "ra": ra, "g": g, "cm": cm, "L": L,
                     "E": float(rng.uniform(-80, -50)), "I": float(rng.uniform(0.01, 0.2) * (r / 1.0) ** 1.5),
                     "layout": ["branch", "cell_equal", "cell_unequal"][(k // 4) % 3],
-                    "split": float(rng.uniform(0.25, 0.75)), "mode": int(rng.integers(1, 4)), "A": float(rng.uniform(5, 30)),
+                    "split": float(rng.choice([rng.uniform(0.3, 0.45), rng.uniform(0.55, 0.7)])), "mode": int(rng.integers(1, 4)), "A": float(rng.uniform(5, 30)),
                     "backend_rot": k})
     return out
 
@@ -63,9 +63,11 @@ def build_cable(case, n, layout):
         if layout == "cell_equal":
             n1, n2, L1 = n // 2, n - n // 2, L * (n // 2) / n
         else:
-            # different compartment lengths on the two sides of the branch point
+            # different compartment lengths on the two sides of the branch point; both sides are refined together
+            # (n/2 compartments each), so the ladder reaches its asymptotic regime: with n//4 vs 3n/4 compartments and a long
+            # first part the coarse side stayed pre-asymptotic up to n=64 and the order window fired on correct code
             L1 = L * case["split"]
-            n1 = max(1, n // 4)
+            n1 = n // 2
             n2 = n - n1
         L2 = L - L1
         m = jx.Cell([jx.Branch([comp] * n1), jx.Branch([comp] * n2)], parents=[-1, 0])
